@@ -535,3 +535,30 @@ Example C03_sinusoidal_slope_example :
             (L O_getAlpha0) (gen_sinrf_V_RF QcF QcOps L B) (L O_getSyncFreq) = Q2Qc 3.
 Proof. vm_compute. repeat split; try reflexivity. discriminate. Qed.
 End SinRFSlope.
+(** ** the loop nest of the RF kick (family st3kick).  The RF kick is [KickMap::apply] along y; [Gen/Gen_KickLoop.v]
+    (regenerated on every run; the translator refuses any data- or cache-dependent shortcut: a column skipped or
+    zero-filled because a cached bunch profile says it is empty, a bunch skipped because of the filling pattern) holds its
+    loop nest, [kick_y_loops] runs it.  Every column of every bunch is kicked: cell (b, x, y) of the output is the cell
+    function [apply_y_cell] of the moment-transport theorems above, a function of the table and of input column (b, x)
+    alone - whatever the target grid held before and whatever the input grid caches besides its data. *)
+Module KickLoopFamily.
+From Inovesa Require Import Model.Kick Gen.Gen_KickLoop Model.KickLoop Proofs.KickLoopP.
+
+Theorem C03_rf_kick_every_column :
+  forall nb n it (H : Z -> Z * Qc) (D out0 : Z -> Qc) b x y,
+    (0 < n)%Z -> (0 <= b < nb)%Z -> (0 <= x < n)%Z -> (0 <= y < n)%Z ->
+    kick_y_loops nb n n it (nb - 1) H D out0 (didx n b x y) = apply_y_cell n nb it H D b x y /\
+    kick_x_loops nb n n it (nb - 1) H D out0 (didx n b x y) = apply_x_cell n nb it H D b x y.
+Proof. exact kick_apply_every_cell. Qed.
+Print Assumptions C03_rf_kick_every_column.
+
+Theorem C03_kick_column_local :
+  forall nb n it (H : Z -> Z * Qc) (D D' out0 out0' : Z -> Qc) b x y,
+    (0 < n)%Z -> (0 <= b < nb)%Z -> (0 <= x < n)%Z -> (0 <= y < n)%Z ->
+    ((forall s, D (didx n b x s) = D' (didx n b x s)) ->
+     kick_y_loops nb n n it (nb - 1) H D out0 (didx n b x y) = kick_y_loops nb n n it (nb - 1) H D' out0' (didx n b x y)) /\
+    ((forall s, D (didx n b s y) = D' (didx n b s y)) ->
+     kick_x_loops nb n n it (nb - 1) H D out0 (didx n b x y) = kick_x_loops nb n n it (nb - 1) H D' out0' (didx n b x y)).
+Proof. exact kick_apply_row_local. Qed.
+Print Assumptions C03_kick_column_local.
+End KickLoopFamily.
